@@ -483,15 +483,23 @@ def index_domain(idx):
         if g is None or not g.is_call("gen_range") or len(g.args) != 2:
             return None, None, "index generator is not rng.gen_range(range)"
         rng_t = as_term(g.args[1])
+        if rng_t is not None and rng_t.is_call("new") and len(rng_t.args) == 2 and "RangeInclusive" in ((rng_t.d or {}).get("path") or ""):
+            return "wrong", None, "draws from the inclusive range %s..=%s: the upper bound itself is drawn, and it is not an index" % (k(rng_t.args[0]), k(rng_t.args[1]))
         if rng_t is None or rng_t.op != "struct:std::ops::Range":
             return None, None, "gen_range is not given a half-open `a..b` range (%s)" % (rng_t.op if rng_t is not None else "?")
         f = _fields(rng_t)
         if k(f.get("start")) != "0":
+            if re.match(r"^\d+$", k(f.get("start")) or ""):
+                return "wrong", None, "draws start at %s, not at 0: the first %s indices can never be drawn" % (k(f.get("start")), k(f.get("start")))
             return None, None, "draws start at %s, not at 0" % k(f.get("start"))
         return "draws", f.get("end"), "draws from 0..%s" % k(f.get("end"))
+    if src is not None and src.is_call("new") and len(src.args) == 2 and "RangeInclusive" in ((src.d or {}).get("path") or ""):
+        return "wrong", None, "the index range %s..=%s includes its upper bound, which is not an index" % (k(src.args[0]), k(src.args[1]))
     if src is not None and src.op == "struct:std::ops::Range":
         f = _fields(src)
         if k(f.get("start")) != "0":
+            if re.match(r"^\d+$", k(f.get("start")) or ""):
+                return "wrong", None, "the index range starts at %s, not at 0: the first %s samples are never selected" % (k(f.get("start")), k(f.get("start")))
             return None, None, "the index range starts at %s, not at 0" % k(f.get("start"))
         return how or "identity", f.get("end"), "%s of 0..%s" % (how or "identity", k(f.get("end")))
     return None, None, "index source `%s` is not a half-open range from 0" % (src.op if src is not None else "?")
@@ -522,7 +530,9 @@ def rule_domain(ctx):
             kind, ext, desc = index_domain(e.args[1])
             want = {0: "rows", 1: "cols"}.get(ax)
             got = _extent_kind(ext) if ext is not None else None
-            if kind is None:
+            if kind == "wrong":
+                res.violate("%s : index-source:#%d" % (key, i), "select #%d along axis %s: %s" % (i, ax, desc), fn_loc(fn, e.node["ln"]))
+            elif kind is None:
                 res.undecided("%s : index-source:#%d" % (key, i), "select #%d along axis %s: %s" % (i, ax, desc), fn_loc(fn, e.node["ln"]))
             elif got != want or want is None:
                 res.violate("%s : index-domain:#%d" % (key, i), "select #%d along axis %s takes %s; the axis has extent %s, so an existing %s can be unreachable or a non-existing one be drawn" % (i, ax, desc, {"rows": "nsamples", "cols": "nfeatures"}.get(want, "?"), "sample" if want == "rows" else "feature"), fn_loc(fn, e.node["ln"]))
@@ -650,6 +660,73 @@ def rule_extent(ctx):
     return res.finish(2)
 
 
+def rule_counted(ctx):
+    """CountedTargets caches the label counts of the targets it wraps; the cache is right by construction only when it is
+    computed from those targets (CountedTargets::new counts them).  A literal that fills the cache from anything else lets
+    cache and targets disagree."""
+    res = RuleResult("R-C02-counted", "CountedTargets values are built by CountedTargets::new (or with label counts computed from the very targets they wrap)")
+    F = ctx.facts()
+    n_lit = 0
+    news = 0
+    for fn in F.all_fns():
+        if fn["d"]["krate"] != "linfa":
+            continue
+        c = fn["crate"]
+        own = (fn["d"].get("self_adt") or "").endswith("CountedTargets")
+        for n in walk(fn["body"]):
+            if n.get("k") == "Call":
+                f = strip(n["f"])
+                d = c.dfn(f.get("def")) if f.get("k") == "Path" else None
+                if d and d["name"] == "new" and "CountedTargets" in (d.get("path") or ""):
+                    news += 1
+            if n.get("k") != "Struct" or not (c.dfn(n.get("def")) or {}).get("path", "").endswith("CountedTargets"):
+                continue
+            n_lit += 1
+            key = fn_key(fn)
+            res.instance("%s : CountedTargets literal" % key)
+            fields = {f_["name"]: f_["e"] for f_ in n["fields"]}
+            tl = peel_refs(fields.get("targets") or {})
+            lab = fields.get("labels")
+            counted = False
+            if lab is not None:
+                inits = {}
+                for y in walk(fn["body"]):
+                    if y.get("k") == "LetStmt" and y.get("init") is not None and y["pat"].get("k") == "Bind":
+                        inits[y["pat"]["local"]] = y["init"]
+                e = lab
+                hops = 0
+                while peel_refs(e).get("k") == "Path" and peel_refs(e).get("local") in inits and hops < 3:
+                    e = inits[peel_refs(e)["local"]]
+                    hops += 1
+                for y in walk(e):
+                    if y.get("k") == "MethodCall" and y["name"] == "label_count" and (peel_refs(y["recv"]).get("local") == tl.get("local") or own):
+                        counted = True
+                # ... or counted in this function: the map handed over is incremented (`*m.entry(l).or_insert(0) += 1`) while
+                # the kept targets are collected
+                roots = set(y["local"] for y in walk(lab) if y.get("k") == "Path" and "local" in y)
+                for y in walk(fn["body"]):
+                    if y.get("k") == "AssignOp" and y["op"] == "+":
+                        for z in walk(y["l"]):
+                            if z.get("k") == "Path" and z.get("local") in roots:
+                                counted = True
+                        # through `for (map, val) in maps.iter_mut().zip(..)`: the incremented binding iterates over the root
+                        for z in walk(fn["body"]):
+                            if z.get("k") == "Match" and z.get("src") == "ForLoopDesugar" and any(w is y for w in walk(z)) and any(w.get("k") == "Path" and w.get("local") in roots for w in walk(z["scrut"])):
+                                counted = True
+            if own:
+                counted = True      # the type's own impls (new, clone, conversions) maintain the cache by definition
+            if counted:
+                res.ok()
+            else:
+                res.violate("%s : counted-targets-forged" % key, "a CountedTargets value is built with a `labels` cache that is not `label_count()` of the targets it wraps: the cached counts can disagree with the targets", fn_loc(fn, n["ln"]))
+    res.instance("crate linfa: %d CountedTargets literals, %d CountedTargets::new calls" % (n_lit, news))
+    if n_lit or news:
+        res.ok()
+    else:
+        res.missing_anchor("constructions of CountedTargets")
+    return res.finish(1)
+
+
 def rule_search(ctx):
     """A membership test decides which samples a label filter keeps.  `binary_search` is a membership test only on a
     sorted sequence; on a caller-supplied slice (whose order the API does not prescribe) it misses listed elements, and
@@ -688,4 +765,4 @@ def rule_search(ctx):
 
 
 def rules(tier):
-    return [rule_align, rule_filter, rule_columns, rule_layout, rule_domain, rule_memorder, rule_extent, rule_search]
+    return [rule_align, rule_filter, rule_columns, rule_layout, rule_domain, rule_memorder, rule_extent, rule_search, rule_counted]
